@@ -60,10 +60,15 @@ def fail_infra(msg, out=""):
 
 
 # ------------------------------------------------------------------------------------------------
+# modules of end-to-end theorems (compositions of the refinement theorems with the L0 laws), built and axiom-audited with a property
+SUPPLEMENT = {"C01": ["E2EArith"], "C07": ["E2EStruct"]}
+
+
 def lean_obligations(prop, thorough):
     """build property module + driver, grep forbidden tokens, audit axioms. Returns dict."""
     t0 = time.time()
-    rc, out = sh(["lake", "build", f"BvaProps.{prop}", "drv"], cwd=LEAN, timeout=3600)
+    extra = [m for m in SUPPLEMENT.get(prop, []) if os.path.exists(os.path.join(LEAN, "BvaProps", m + ".lean"))]
+    rc, out = sh(["lake", "build", f"BvaProps.{prop}", "drv"] + [f"BvaProps.{m}" for m in extra], cwd=LEAN, timeout=3600)
     if rc != 0:
         return {"ok": False, "why": "lake build failed", "log": out, "theorems": [], "discharged": 0}
     # forbidden tokens (comments stripped line-wise)
@@ -82,10 +87,14 @@ def lean_obligations(prop, thorough):
         return {"ok": False, "why": "forbidden token", "log": "\n".join(bad), "theorems": [], "discharged": 0}
     src = open(os.path.join(LEAN, "BvaProps", f"{prop}.lean")).read()
     names = re.findall(r"^theorem\s+(" + prop + r"_\w+)", src, flags=re.M)
+    for m in extra:   # end-to-end compositions (refinement theorems + L0 laws) audited with this property
+        names += re.findall(r"^theorem\s+(E2E_\w+)", open(os.path.join(LEAN, "BvaProps", m + ".lean")).read(), flags=re.M)
     os.makedirs(WORK, exist_ok=True)
     audit = os.path.join(WORK, f"Audit_{prop}.lean")
     with open(audit, "w") as f:
         f.write(f"import BvaProps.{prop}\n")
+        for m in extra:
+            f.write(f"import BvaProps.{m}\n")
         for n in names:
             f.write(f"#print axioms Bva.{n}\n")
     rc, out = sh(["lake", "env", "lean", audit], cwd=LEAN, timeout=1800)
@@ -103,7 +112,10 @@ def lean_obligations(prop, thorough):
     if not res["ok"]:
         res["why"] = "a property theorem is missing or uses a disallowed axiom"
     if thorough and res["ok"]:
-        rc, out = sh(["lake", "env", "leanchecker", f"BvaProps.{prop}"], cwd=LEAN, timeout=3600)
+        rc, out = 0, ""
+        for mod in [prop] + extra:
+            rc1, out1 = sh(["lake", "env", "leanchecker", f"BvaProps.{mod}"], cwd=LEAN, timeout=3600)
+            rc, out = (rc or rc1), out + out1
         res["leanchecker_rc"] = rc
         if rc != 0:
             res["ok"] = False
